@@ -122,21 +122,26 @@ static void fill(spif_obj_t c, int k)
         else SPIF_LIST_APPEND((spif_list_t) c, e);
     }
 }
-static spif_array_t mk_array(int k)
+/* odd variants of the list samples hold a NULL placeholder between their elements (what insert_at beyond the end leaves behind) */
+static void gap(spif_obj_t c, int k, int v) { if (k == KL && (v & 1)) SPIF_LIST_INSERT_AT((spif_list_t) c, (spif_obj_t) spif_str_new_from_ptr((spif_charptr_t) "far"), 4); }
+static spif_array_t mk_array_v(int k, int v)
 {
     spif_obj_t c = k == KM ? (spif_obj_t) SPIF_MAP_NEW(array) : k == KV ? (spif_obj_t) SPIF_VECTOR_NEW(array) : (spif_obj_t) SPIF_LIST_NEW(array);
-    fill(c, k); return (spif_array_t) c;
+    fill(c, k); gap(c, k, v); return (spif_array_t) c;
 }
-static spif_linked_list_t mk_llist(int k)
+static spif_array_t mk_array(int k) { return mk_array_v(k, 0); }
+static spif_linked_list_t mk_llist_v(int k, int v)
 {
     spif_obj_t c = k == KM ? (spif_obj_t) SPIF_MAP_NEW(linked_list) : k == KV ? (spif_obj_t) SPIF_VECTOR_NEW(linked_list) : (spif_obj_t) SPIF_LIST_NEW(linked_list);
-    fill(c, k); return (spif_linked_list_t) c;
+    fill(c, k); gap(c, k, v); return (spif_linked_list_t) c;
 }
-static spif_dlinked_list_t mk_dlist(int k)
+static spif_linked_list_t mk_llist(int k) { return mk_llist_v(k, 0); }
+static spif_dlinked_list_t mk_dlist_v(int k, int v)
 {
     spif_obj_t c = k == KM ? (spif_obj_t) SPIF_MAP_NEW(dlinked_list) : k == KV ? (spif_obj_t) SPIF_VECTOR_NEW(dlinked_list) : (spif_obj_t) SPIF_LIST_NEW(dlinked_list);
-    fill(c, k); return (spif_dlinked_list_t) c;
+    fill(c, k); gap(c, k, v); return (spif_dlinked_list_t) c;
 }
+static spif_dlinked_list_t mk_dlist(int k) { return mk_dlist_v(k, 0); }
 static spif_list_t mk_list(void) { return (spif_list_t) mk_array(KL); }
 static spif_vector_t mk_vector(void) { return (spif_vector_t) mk_array(KV); }
 static spif_map_t mk_map(void) { return (spif_map_t) mk_array(KM); }
